@@ -86,7 +86,12 @@ def run_unit(repo, unit, default_cfg_factory, timeout_ms=10000):
         fr0 = Frame(None, func.module, eid, None, -1)
         star = ctx.get("star") if isinstance(ctx, dict) else None
         starkw = ctx.get("starkw") if isinstance(ctx, dict) else None
-        for st1, out in engine.call_func(st, fr0, func, args, kwargs, star, starkw, None, self_cls=unit.self_cls):
+        env = ctx.get("env") if isinstance(ctx, dict) else None
+        if isinstance(ctx, dict) and ctx.get("raw"):
+            # the function body itself; its decorator's wrapper is under contract in a unit of its own
+            from .b_ctrl import _Undecorated
+            func = _Undecorated(func)
+        for st1, out in engine.call_func(st, fr0, func, args, kwargs, star, starkw, None, env=env, self_cls=unit.self_cls):
             ends.append(PathEnd(st1, out, "exit"))
         res["paths"] = len(ends)
         obls = {}
@@ -110,12 +115,14 @@ def run_unit(repo, unit, default_cfg_factory, timeout_ms=10000):
             for ob in pe.st.oblig:
                 add(ob, pe.st)
             if pe.kind == "exit":
-                for (nm, kind, f, props) in unit.post(engine, pe.st, ctx, pe.out):
+                for clause in unit.post(engine, pe.st, ctx, pe.out):
+                    (nm, kind, f, props) = clause[:4]
+                    cst = clause[4] if len(clause) > 4 else pe.st      # a clause about a simulated continuation carries its own state
                     if f is True:
                         f = z3.BoolVal(True)
                     elif f is False:
                         f = z3.BoolVal(False)
-                    add(Obligation(nm, kind, f, list(pe.st.pc), list(pe.st.decisions), None, props), pe.st)
+                    add(Obligation(nm, kind, f, list(cst.pc), list(cst.decisions), None, props), cst)
                 for nm, cf in unit.covers:
                     if not covers[nm]:
                         c = cf(engine, pe.st, ctx, pe.out)
